@@ -357,6 +357,11 @@ fn run_case(env: &Env, src: &str, tr: bool) -> String {
 }
 
 fn worker(tr: bool, stack_kib: usize) {
+    // a runaway case (e.g. a loop that keeps pushing diagnostics) must die by allocation failure, not take the machine down
+    unsafe {
+        let lim = libc::rlimit { rlim_cur: 6 << 30, rlim_max: 6 << 30 };
+        libc::setrlimit(libc::RLIMIT_AS, &lim);
+    }
     install_hook();
     install_fatal_handlers();
     block_usr1_here();
@@ -504,6 +509,91 @@ struct Sup {
     spans: bool,
     /// cases answered by the current child (it is replaced now and then: the interner of the compiler only grows)
     served: usize,
+    /// confirmed hangs so far; after `MAX_HANGS` the stream is cut (`#CUT` line): thousands of enumerated texts share a
+    /// hanging prefix and each one costs two wall-clock guards
+    hangs: usize,
+    agg: Option<Agg>,
+}
+
+const MAX_HANGS: usize = 6;
+
+/// aggregation of the result lines of an exhaustive stream (millions of lines): passing cases are only counted, failing
+/// cases are grouped by their raw signature with a count and the shortest example; aborts/timeouts are passed through.
+#[derive(Default)]
+struct Agg {
+    evaluations: u64,
+    valid: u64,
+    ndiag: u64,
+    nontrivial: u64,
+    max_bytes: usize,
+    classes: std::collections::BTreeMap<String, u64>,
+    ntok_hist: std::collections::BTreeMap<u64, u64>,
+    groups: std::collections::BTreeMap<String, (u64, String)>,
+    samples: Vec<String>,
+}
+
+impl Agg {
+    fn add(&mut self, line: &str, out: &mut impl Write) {
+        let f: Vec<&str> = line.split('\t').collect();
+        if f.len() < 10 {
+            let _ = writeln!(out, "{line}");
+            return;
+        }
+        self.evaluations += 1;
+        *self.classes.entry(f[1].to_string()).or_insert(0) += 1;
+        if f[2] == "1" {
+            self.valid += 1;
+        }
+        self.ndiag += f[9].parse::<u64>().unwrap_or(0);
+        let ntok: u64 = f.get(10).and_then(|x| x.strip_prefix("ntok=")).and_then(|x| x.split(';').next()).and_then(|x| x.parse().ok()).unwrap_or(0);
+        if ntok >= 2 {
+            self.nontrivial += 1;
+        }
+        *self.ntok_hist.entry(if ntok == 0 { 1 } else { (ntok + 1).next_power_of_two().max(2) }).or_insert(0) += 1;
+        self.max_bytes = self.max_bytes.max(if f[0] == "-" { 0 } else { f[0].len() / 2 });
+        if f[1] == "abort" || f[1] == "timeout" {
+            let _ = writeln!(out, "{line}");
+            return;
+        }
+        let failing = f[1] == "panic" || f[8] != "ok";
+        if !failing {
+            if self.samples.len() < 2 && f[1] == "diagnostics" && ntok >= 3 && self.evaluations % 997 == 5 {
+                self.samples.push(line.to_string());
+            }
+            return;
+        }
+        // raw signature: validity, panic locations per stage (+ whether the payload is an unwrapped Err), span verdict class
+        let mut key = format!("{}|{}", f[1], f[2]);
+        for st in &f[3..8] {
+            if let Some(p) = st.strip_prefix('P') {
+                let (loc, msg) = p.split_once('|').unwrap_or((p, ""));
+                key.push_str(&format!("|{loc}{}", if msg.starts_with("called `Result::unwrap()` on an `Err` value") { "!" } else { "" }));
+            } else {
+                key.push_str("|-");
+            }
+        }
+        if f[8] != "ok" {
+            let parts: Vec<&str> = f[8].split(';').next().unwrap_or("").split(':').collect();
+            key.push_str(&format!("|{}:{}:{}", parts.first().unwrap_or(&""), parts.get(2).unwrap_or(&""), parts.get(3).unwrap_or(&"")));
+        }
+        let e = self.groups.entry(key).or_insert((0, line.to_string()));
+        e.0 += 1;
+        if line.len() < e.1.len() {
+            e.1 = line.to_string();
+        }
+    }
+    fn finish(&self, out: &mut impl Write) {
+        for (_, (n, ex)) in &self.groups {
+            let _ = writeln!(out, "#AGG\t{n}\t{ex}");
+        }
+        for s in &self.samples {
+            let _ = writeln!(out, "#SAMPLE\t{s}");
+        }
+        let j = serde_json::json!({"evaluations": self.evaluations, "valid": self.valid, "ndiag": self.ndiag, "nontrivial": self.nontrivial,
+            "max_bytes": self.max_bytes, "classes": self.classes,
+            "ntok_hist": self.ntok_hist.iter().map(|(k, v)| (k.to_string(), *v)).collect::<std::collections::BTreeMap<String, u64>>()});
+        let _ = writeln!(out, "#SUM\t{j}");
+    }
 }
 
 fn classes(s: &str) -> String {
@@ -548,6 +638,13 @@ fn spans_line(src: &str) -> String {
 
 impl Sup {
     fn case(&mut self, src: &str) {
+        if self.hangs >= MAX_HANGS {
+            if self.hangs == MAX_HANGS {
+                let _ = writeln!(self.out, "#CUT\tstream cut after {MAX_HANGS} confirmed hangs");
+                self.hangs += 1;
+            }
+            return;
+        }
         if self.spans {
             let l = spans_line(src);
             let _ = writeln!(self.out, "{l}");
@@ -567,9 +664,7 @@ impl Sup {
         self.served += 1;
         let r = ask(self.kid.as_mut().unwrap(), &h, self.timeout);
         match r {
-            Reply::Line(l) => {
-                let _ = writeln!(self.out, "{l}");
-            }
+            Reply::Line(l) => self.emit(&l),
             Reply::Dead(..) | Reply::Timeout(_) => {
                 let is_to = matches!(r, Reply::Timeout(_));
                 let mut k = self.kid.take().unwrap();
@@ -583,7 +678,7 @@ impl Sup {
                         // long-lived child; the verdict of the fresh child counts, the episode is flagged
                         let _ = kill(&mut k2);
                         let c = if is_to { "timeout" } else { "abort" };
-                        let _ = writeln!(self.out, "{l};flaky={c}:{how}");
+                        self.emit(&format!("{l};flaky={c}:{how}"));
                         return;
                     }
                     Reply::Dead(s, fr) => ("abort", s, format!("{};frames={fr}", reap(&mut k2))),
@@ -609,14 +704,26 @@ impl Sup {
                             }
                             std::thread::sleep(Duration::from_millis(120));
                         }
+                        self.hangs += 1;
                         ("timeout", s, format!("{};frames={}", kill(&mut k2), fr.join("/")))
                     }
                 };
-                let _ = writeln!(self.out, "{h}\t{cls}\t0\t-\t-\t-\t-\t-\tok\t0\tstage={stage};{how2}");
+                self.emit(&format!("{h}\t{cls}\t0\t-\t-\t-\t-\t-\tok\t0\tstage={stage};{how2}"));
+            }
+        }
+    }
+    fn emit(&mut self, line: &str) {
+        match self.agg.as_mut() {
+            Some(a) => a.add(line, &mut self.out),
+            None => {
+                let _ = writeln!(self.out, "{line}");
             }
         }
     }
     fn finish(&mut self) {
+        if let Some(a) = self.agg.take() {
+            a.finish(&mut self.out);
+        }
         if let Some(mut k) = self.kid.take() {
             drop(k.stdin);
             let _ = k.child.wait();
@@ -893,7 +1000,7 @@ fn main() {
             if spans {
                 install_hook();
             }
-            let mut sup = Sup { kid: None, stack_kib, timeout, out: std::io::BufWriter::new(std::io::stdout()), spans, served: 0 };
+            let mut sup = Sup { kid: None, stack_kib, timeout, out: std::io::BufWriter::new(std::io::stdout()), spans, served: 0, hangs: 0, agg: None };
             let num = |i: usize| -> usize { args[i].parse().unwrap() };
             match args[3].as_str() {
                 "lines" => {
@@ -913,6 +1020,9 @@ fn main() {
                     }
                 }
                 "enum" => {
+                    if !spans {
+                        sup.agg = Some(Agg::default());
+                    }
                     let alpha = load_alphabet(&args[4], &args[5]);
                     let sep = if args[7] == "sep" { " " } else { "" };
                     gen_enum(&mut sup, &alpha, num(6), sep, num(8), num(9));
